@@ -130,6 +130,23 @@ NullsLast(C(_, _)) == \A a \in Universe, z \in {NULL, NEGNAN} : Canon(a) # NULL 
 ComparatorAxioms == TotalPreorder(Cmp) /\ TotalPreorder(CmpRev) /\ NullsLast(Cmp) /\ NullsLast(CmpRev)
                     /\ \A a \in Universe, b \in Universe : (Canon(a) # NULL /\ Canon(b) # NULL) => CmpRev(a, b) = Cmp(b, a)
 
+(* ---- durations: a compound value under the same comparators --------------------------- *)
+
+\* a duration is <<months, exact part>>; <<NULL, 0>> is NaT.  "By value" is the lexicographic order
+\* (calendar part first): two durations compare Equal only if they ARE equal.
+TDNat == <<NULL, 0>>
+TDUniverse == {<<m, x>> : m \in {0 - 1, 0, 1}, x \in {0 - 1, 0, 1}} \cup {TDNat}
+TDCmp(a, b) == IF a = TDNat /\ b = TDNat THEN 0 ELSE IF a = TDNat THEN 1 ELSE IF b = TDNat THEN 0 - 1
+               ELSE IF a[1] # b[1] THEN Sgn(a[1] - b[1]) ELSE Sgn(a[2] - b[2])
+TDCmpRev(a, b) == IF a = TDNat /\ b = TDNat THEN 0 ELSE IF a = TDNat THEN 1 ELSE IF b = TDNat THEN 0 - 1
+                  ELSE TDCmp(b, a)
+TDAxioms ==
+    \A a \in TDUniverse, b \in TDUniverse, d \in TDUniverse :
+        /\ TDCmp(a, a) = 0 /\ TDCmp(a, b) = 0 - TDCmp(b, a)
+        /\ (TDCmp(a, b) <= 0 /\ TDCmp(b, d) <= 0) => TDCmp(a, d) <= 0
+        /\ TDCmp(a, b) = 0 => a = b                                  \* Equal only for equal durations
+        /\ (a # TDNat) => TDCmp(a, TDNat) < 0 /\ TDCmpRev(a, TDNat) < 0
+
 (* ---- enumeration ------------------------------------------------------------------- *)
 
 VARIABLE c
